@@ -25,6 +25,7 @@ type recNode struct {
 	ty         eventlogger.NodeType
 	beh        string
 	closeFails bool
+	slowClose  time.Duration // Close takes this long (race scenarios: widens the window after the broker released its lock)
 	h          *regHarness
 	closes     int
 	reopens    int
@@ -85,6 +86,9 @@ func (n *recNode) Close(ctx context.Context) error {
 		n.h.oracle("C06 instance %d closed %d times", n.inst, n.closes)
 	}
 	n.h.mu.Unlock()
+	if n.slowClose > 0 {
+		time.Sleep(n.slowClose)
+	}
 	if n.closeFails {
 		return instErr{n.inst}
 	}
